@@ -204,8 +204,10 @@ TraceReimport ==
   /\ LET C == StateFrom(Ev.st)
          R == Reimport(lk)
      IN
-     /\ Chk(Matches(R, C) /\ R.ranking = C.ranking /\ R.lockIdx = C.lockIdx /\ R.valSet = C.valSet /\ R.thr = C.thr, "REIMPORT-MISMATCH", Diff(R, C))
-     /\ Chk(Ups(Ev) \ {<<0, 0>>} = { <<v, C.valSet[v]>> : v \in { x \in Vals : C.valSet[x] # Absent } }, "INIT-VALIDATORS", Ev.vals)
+     \* every bound slice of the imported state equals the specification's Reimport of the exported one (C18 binds all slices,
+     \* which cover ranking, index, recorded set and threshold list; C11 binds the funds slice only, and so on)
+     /\ Chk(Matches(R, C), "REIMPORT-MISMATCH", Diff(R, C))
+     /\ Chk(B("set") => (Ups(Ev) \ {<<0, 0>>} = { <<v, C.valSet[v]>> : v \in { x \in Vals : C.valSet[x] # Absent } }), "INIT-VALIDATORS", Ev.vals)
      /\ Ev.st.unknown = 0 /\ Ev.st.big = 0
      /\ lk' = C
      /\ comet' = [v \in Vals |-> Ev.comet[v]]
